@@ -22,12 +22,30 @@ import (
 // C12: memory and Redis stores both implement one abstract session map.
 
 type c12Ref struct {
-	Tokens map[string]*oidc.TokenResponse
-	State  map[string]*oidc.AuthorizationState
+	Tokens  map[string]*oidc.TokenResponse
+	State   map[string]*oidc.AuthorizationState
+	Created map[string]time.Time // fixed by the first write of the entry; gone with Remove or expiry
+	Abs     time.Duration        // absolute time-out (0: none)
 }
 
 func newC12Ref() *c12Ref {
-	return &c12Ref{Tokens: map[string]*oidc.TokenResponse{}, State: map[string]*oidc.AuthorizationState{}}
+	return &c12Ref{Tokens: map[string]*oidc.TokenResponse{}, State: map[string]*oidc.AuthorizationState{}, Created: map[string]time.Time{}}
+}
+
+// expire drops the entry under id when it has outlived the absolute time-out (the harness never lands exactly on
+// the limit, where the two stores legitimately differ).
+func (r *c12Ref) expire(id string, now time.Time) {
+	if c, ok := r.Created[id]; ok && r.Abs > 0 && c.Add(r.Abs).Before(now) {
+		delete(r.Created, id)
+		delete(r.State, id)
+		delete(r.Tokens, id)
+	}
+}
+
+func (r *c12Ref) touch(id string, now time.Time) {
+	if _, ok := r.Created[id]; !ok {
+		r.Created[id] = now
+	}
 }
 
 
@@ -76,13 +94,16 @@ func fmtState(a *oidc.AuthorizationState) string {
 }
 
 // applyRef applies op to the reference map and returns the value a read must return.
-func (r *c12Ref) apply(op, id, val string) string {
+func (r *c12Ref) apply(op, id, val string, now time.Time) string {
+	r.expire(id, now)
 	switch op {
 	case "SetTokens":
+		r.touch(id, now)
 		r.Tokens[id] = c12TokenValue(val)
 	case "GetTokens":
 		return fmtTok(r.Tokens[id])
 	case "SetState":
+		r.touch(id, now)
 		r.State[id] = c12StateValue(val)
 	case "GetState":
 		return fmtState(r.State[id])
@@ -91,6 +112,7 @@ func (r *c12Ref) apply(op, id, val string) string {
 	case "Remove":
 		delete(r.State, id)
 		delete(r.Tokens, id)
+		delete(r.Created, id)
 	}
 	return ""
 }
@@ -174,15 +196,16 @@ func (s *c12Sys) Close() {
 	world.Minis.Put(s.mini)
 }
 
-func newC12Sys() *c12Sys {
+func newC12Sys(abs time.Duration) *c12Sys {
 	s := &c12Sys{now: world.T0, ref: newC12Ref()}
+	s.ref.Abs = abs
 	s.clock = oidc.Clock{NowFn: func() time.Time { return s.now }}
-	s.mem = oidc.NewMemoryStore(&s.clock, 0, 0)
+	s.mem = oidc.NewMemoryStore(&s.clock, abs, 0)
 	s.mini = world.Minis.Get()
 	s.mini.SetTime(s.now)
 	for i := range s.rc {
 		s.rc[i] = redis.NewClient(&redis.Options{Addr: s.mini.Addr(), MaxRetries: -1})
-		r, err := oidc.NewRedisStore(&s.clock, s.rc[i], 0, 0)
+		r, err := oidc.NewRedisStore(&s.clock, s.rc[i], abs, 0)
 		if err != nil {
 			panic(err)
 		}
@@ -216,13 +239,39 @@ func (s *c12Sys) redisDump() string {
 
 type c12Replay struct {
 	History []seqx.Event `json:"history"`
+	Abs     int          `json:"abs,omitempty"`
 }
 
-func c12Model(run *ev.Run) seqx.Model {
+// createdCheck compares the creation time both stores keep for every entry of the reference with the reference's
+// (fixed by the first write of the entry). White-box, no side effects.
+func (s *c12Sys) createdCheck() string {
+	snap := oidc.VerifMemorySnapshot(s.mem)
+	for id, c := range s.ref.Created {
+		if s.ref.Abs > 0 && c.Add(s.ref.Abs).Before(s.now) {
+			continue // expired in the abstract, possibly not yet collected
+		}
+		if se, ok := snap[id]; ok && !se.Added.Equal(c) {
+			return fmt.Sprintf("memory store: entry %q created %v after the start by its first write, the store says %v", id, c.Sub(world.T0), se.Added.Sub(world.T0))
+		}
+		if v := s.mini.HGet(id, "time_added"); v != "" {
+			if t, err := time.Parse(time.RFC3339Nano, v); err == nil && !t.Equal(c) {
+				return fmt.Sprintf("redis store: entry %q created %v after the start by its first write, the store says %v", id, c.Sub(world.T0), t.Sub(world.T0))
+			}
+		}
+	}
+	return ""
+}
+
+func c12Model(run *ev.Run, absSec int) seqx.Model {
 	ids := []string{"a", "b"}
+	shapes := []string{"full", "no-access", "no-refresh", "zero-expiry"}
+	if absSec > 0 {
+		ids, shapes = []string{"a"}, []string{"full", "no-access"}
+	}
+	abs := time.Duration(absSec) * time.Second
 	var alphabet []seqx.Event
 	for _, id := range ids {
-		for _, v := range []string{"full", "no-access", "no-refresh", "zero-expiry"} {
+		for _, v := range shapes {
 			alphabet = append(alphabet, seqx.Event{Kind: "SetTokens", Who: id, Arg: v})
 		}
 		alphabet = append(alphabet, seqx.Event{Kind: "GetTokens", Who: id})
@@ -239,9 +288,14 @@ func c12Model(run *ev.Run) seqx.Model {
 			evs = append(evs, e2)
 		}
 	}
-	evs = append(evs, seqx.Event{Kind: "Advance", Adv: 1})
+	if absSec > 0 {
+		// never exactly on the limit (absSec is odd, advances are even)
+		evs = append(evs, seqx.Event{Kind: "Advance", Adv: 2}, seqx.Event{Kind: "Advance", Adv: absSec + 1})
+	} else {
+		evs = append(evs, seqx.Event{Kind: "Advance", Adv: 1})
+	}
 	return seqx.Model{
-		New: func() seqx.Sys { return newC12Sys() },
+		New: func() seqx.Sys { return newC12Sys(abs) },
 		Apply: func(sy seqx.Sys, e seqx.Event, hist []seqx.Event, live bool) {
 			s := sy.(*c12Sys)
 			if e.Kind == "Advance" {
@@ -250,13 +304,13 @@ func c12Model(run *ev.Run) seqx.Model {
 				s.mini.FastForward(time.Duration(e.Adv) * time.Second)
 				return
 			}
-			want := s.ref.apply(e.Kind, e.Who, e.Arg)
+			want := s.ref.apply(e.Kind, e.Who, e.Arg, s.now)
 			gm, em := c12ApplyStore(s.mem, e.Kind, e.Who, e.Arg)
 			gr, er := c12ApplyStore(s.red[e.N], e.Kind, e.Who, e.Arg)
 			if !live {
 				return
 			}
-			full := c12Replay{History: append(append([]seqx.Event{}, hist...), e)}
+			full := c12Replay{History: append(append([]seqx.Event{}, hist...), e), Abs: absSec}
 			isRead := e.Kind == "GetTokens" || e.Kind == "GetState"
 			run.Class(fmt.Sprintf("%s|found=%v", e.Kind, want != "nil" && want != ""))
 			if em != nil && !(e.Kind == "Clear") {
@@ -273,8 +327,11 @@ func c12Model(run *ev.Run) seqx.Model {
 					run.Violation(fmt.Sprintf("C12 redis-read-differs op=%s", e.Kind), fmt.Sprintf("redis (instance %d) returned %s, abstract map %s", e.N, gr, want), full)
 				}
 			}
+			if why := s.createdCheck(); why != "" {
+				run.Violation("C12 creation-time-not-fixed-by-first-write after="+e.Kind, why, full)
+			}
 			// whole-content comparison after every operation (memory, white-box)
-			if d := c12MemDump(s.mem); d != s.ref.dump() {
+			if d := c12MemDump(s.mem); absSec == 0 && d != s.ref.dump() {
 				// a memory session object without state and tokens is not observable through the interface
 				if strings.ReplaceAll(d, "nil/nil;", "") != s.ref.dump() && !c12OnlyEmptyDiff(d, s.ref.dump()) {
 					run.Violation("C12 memory-content-differs after="+e.Kind, fmt.Sprintf("memory holds %s, abstract map %s", d, s.ref.dump()), full)
@@ -284,7 +341,21 @@ func c12Model(run *ev.Run) seqx.Model {
 		Enabled: func(sy seqx.Sys, hist []seqx.Event, fresh func() seqx.Sys) []seqx.Event { return evs },
 		Canon: func(sy seqx.Sys) string {
 			s := sy.(*c12Sys)
-			return c12MemDump(s.mem) + "|" + s.redisDump() + "|" + hidden.Dump(s.mem, "log", "clock", "mu", "sessions") +
+			ages := ""
+			if absSec > 0 {
+				snap := oidc.VerifMemorySnapshot(s.mem)
+				for _, id := range ids {
+					if se, ok := snap[id]; ok {
+						ages += fmt.Sprintf("|m:%s:%v", id, s.now.Sub(se.Added))
+					}
+					if v := s.mini.HGet(id, "time_added"); v != "" {
+						if t, err := time.Parse(time.RFC3339Nano, v); err == nil {
+							ages += fmt.Sprintf("|r:%s:%v:%v", id, s.now.Sub(t), s.mini.TTL(id))
+						}
+					}
+				}
+			}
+			return ages + c12MemDump(s.mem) + "|" + s.redisDump() + "|" + hidden.Dump(s.mem, "log", "clock", "mu", "sessions") +
 				hidden.Dump(s.red[0], "log", "clock", "client") + hidden.Dump(s.red[1], "log", "clock", "client")
 		},
 	}
@@ -372,7 +443,7 @@ func c12Linearizable(evs []c12Event, final string) bool {
 			ref := newC12Ref()
 			for _, i := range order {
 				e := evs[i]
-				want := ref.apply(e.Op.Op, e.Op.ID, e.Op.Val)
+				want := ref.apply(e.Op.Op, e.Op.ID, e.Op.Val, world.T0)
 				if (e.Op.Op == "GetTokens" || e.Op.Op == "GetState") && want != e.Result {
 					return false
 				}
@@ -441,7 +512,7 @@ func c12Run(run *ev.Run) {
 		"not compared: error returned by Clear on an absent id; an empty session object kept by the memory store (not observable through the interface)",
 		"'longer ones randomly' is not claimed (sampling)",
 	}
-	m := c12Model(run)
+	m := c12Model(run, 0)
 	m.MaxDepth = 7
 	if run.Tier == "thorough" {
 		m.MaxDepth = 10
@@ -452,6 +523,20 @@ func c12Run(run *ev.Run) {
 	}
 	run.Extra["sequential_levels"] = st.LevelSizes
 	run.States, run.Transitions, run.Traces = st.States, st.Transitions, st.Histories
+	// with an absolute time-out of 5 s: expiry, re-creation under the same id, creation time across replicas
+	ma := c12Model(run, 5)
+	ma.MaxDepth = 9
+	if run.Tier == "thorough" {
+		ma.MaxDepth = 12
+	}
+	sa := seqx.Explore(run, ma)
+	if !sa.Complete {
+		run.Cap(fmt.Sprintf("sequential search with absolute time-out stopped at depth %d", sa.DepthDone))
+	}
+	run.Extra["sequential_levels_abs5"] = sa.LevelSizes
+	run.States += sa.States
+	run.Transitions += sa.Transitions
+	run.Traces += sa.Histories
 	for _, sc := range c12ConcScenarios(run.Tier) {
 		cs := schedx.Explore(run, "C12", sc)
 		run.Traces += cs.Schedules
@@ -490,7 +575,7 @@ func c12ReplayFn(path string) int {
 		return 2
 	}
 	run := ev.NewRun("C12", "replay", "/nonexistent")
-	s := seqx.Replay(c12Model(run), sr.History)
+	s := seqx.Replay(c12Model(run, sr.Abs), sr.History)
 	s.Close()
 	return replayVerdict("C12", run.Violations() > 0, "")
 }
